@@ -268,3 +268,162 @@ def write_replay(path, **kw):
     with open(path, "w", encoding="utf-8") as f:
         f.write(REPLAY_TEMPLATE.format(**kw))
     os.chmod(path, 0o755)
+
+
+# ------------------------------------------------------------------------------------------------ executable contracts
+import ast as _ast
+import copy as _copy
+import inspect as _inspect
+
+
+class _OldRewriter(_ast.NodeTransformer):
+    def __init__(self):
+        self.olds = []
+
+    def visit_Call(self, node):
+        self.generic_visit(node)
+        if isinstance(node.func, _ast.Name) and node.func.id == "old" and len(node.args) == 1:
+            self.olds.append(node.args[0])
+            return _ast.Subscript(value=_ast.Name(id="__old__", ctx=_ast.Load()),
+                                  slice=_ast.Constant(value=len(self.olds) - 1), ctx=_ast.Load())
+        return node
+
+
+_CLAUSE_CACHE = {}
+
+
+def compile_clause(module, cls, fname):
+    """(pre, post): pre(**params) evaluates the old(...) expressions of the clause in the pre-state (deep-copied);
+    post(__old__, **params) evaluates the clause with old(E) replaced by the saved values."""
+    key = (module.__name__, cls.__name__, fname)
+    if key in _CLAUSE_CACHE:
+        return _CLAUSE_CACHE[key]
+    src = _inspect.getsource(module)
+    tree = _ast.parse(src)
+    fnode = None
+    for st in tree.body:
+        if isinstance(st, _ast.ClassDef) and st.name == cls.__name__:
+            for b in st.body:
+                if isinstance(b, _ast.FunctionDef) and b.name == fname:
+                    fnode = b
+    if fnode is None:
+        raise KeyError(fname)
+    rw = _OldRewriter()
+    fnode = _copy.deepcopy(fnode)
+    fnode.decorator_list = []
+    fnode = rw.visit(fnode)
+    params = [a.arg for a in fnode.args.args]
+    pre_params = [p for p in params if p != "result"]
+    pre_src = _ast.FunctionDef(name="__pre", args=_ast.arguments(posonlyargs=[], args=[_ast.arg(arg=p) for p in pre_params],
+                                                                 kwonlyargs=[], kw_defaults=[], defaults=[]),
+                               body=[_ast.Return(value=_ast.List(elts=rw.olds, ctx=_ast.Load()))], decorator_list=[])
+    fnode.name = "__post"
+    fnode.args.args = [_ast.arg(arg="__old__")] + fnode.args.args
+    mod = _ast.Module(body=[pre_src, fnode], type_ignores=[])
+    _ast.fix_missing_locations(mod)
+    ns = dict(vars(module))
+    exec(compile(mod, f"<clause {cls.__name__}.{fname}>", "exec"), ns)
+    res = (ns["__pre"], ns["__post"], pre_params, params)
+    _CLAUSE_CACHE[key] = res
+    return res
+
+
+def check_case(target, module, cls, case, clauses=None):
+    """Run the real function on one concrete case and evaluate the contract natively.
+    case = {"self": obj | None, "kwargs": {...}}. Returns list of (clause, detail) violations."""
+    owner, fn = resolve_target(target)
+    selfobj = case.get("self")
+    kwargs = dict(case.get("kwargs", {}))
+    # contract parameters denote the values at entry: clauses see a deep copy taken before the call
+    env = _copy.deepcopy(kwargs)
+    if selfobj is not None:
+        env["self"] = selfobj
+    names = [n for n in dir(cls) if n.startswith("ensures")]
+    if clauses:
+        names = [n for n in names if n[len("ensures"):].lstrip("_") in clauses or n in clauses]
+    compiled = {}
+    pres = {}
+    for n in names:
+        f = getattr(cls, n)
+        meta = getattr(f, "_clause", {})
+        if meta.get("mode") == "use":
+            continue
+        pre, post, pre_params, params = compile_clause(module, cls, n)
+        compiled[n] = (post, params)
+        try:
+            pres[n] = _copy.deepcopy(pre(**{k: env[k] for k in pre_params if k in env}))
+        except Exception as e:   # noqa: BLE001
+            return [(n, f"old(...) raised {e!r}")]
+    # preconditions
+    for rn in [n for n in dir(cls) if n.startswith("requires") and not n.startswith("requires_quick")]:
+        f = getattr(cls, rn)
+        want = _inspect.signature(f).parameters
+        try:
+            if not f(**{k: v for k, v in env.items() if k in want}):
+                return None     # outside the contract
+        except Exception:   # noqa: BLE001
+            return None
+    raised = None
+    result = None
+    try:
+        if selfobj is not None:
+            result = fn(selfobj, **kwargs)
+        else:
+            result = fn(**kwargs)
+    except Exception as e:   # noqa: BLE001
+        raised = e
+    bad = []
+    if raised is not None:
+        rname = f"raises_{type(raised).__name__}"
+        if hasattr(cls, rname):
+            f = getattr(cls, rname)
+            want = _inspect.signature(f).parameters
+            if not f(**{k: v for k, v in env.items() if k in want}):
+                bad.append((rname, f"raised {raised!r} although the raise condition is false"))
+        elif getattr(cls, "raises", None) == ():
+            bad.append(("no-raise", f"raised {raised!r}"))
+        return bad
+    for rname in [n for n in dir(cls) if n.startswith("raises_")]:
+        f = getattr(cls, rname)
+        want = _inspect.signature(f).parameters
+        if f(**{k: v for k, v in env.items() if k in want}):
+            bad.append((rname, f"returned {result!r} although the raise condition holds"))
+    for n, (post, params) in compiled.items():
+        kw = {k: env[k] for k in params if k in env}
+        if "result" in params:
+            kw["result"] = result
+        try:
+            ok = post(pres[n], **kw)
+        except Exception as e:   # noqa: BLE001
+            bad.append((n, f"clause raised {e!r} (result={result!r})"))
+            continue
+        if not ok:
+            bad.append((n, f"result={result!r}"))
+    return bad
+
+
+def run_cases(target, spec_mod, cname, tier="quick", seed=0, limit=200000):
+    """Bounded stand-in / spec validation: the contract's own case generator, real code vs executable contract.
+    Returns {"cases": n, "in_contract": m, "violations": [[clause, case-repr, detail], ...]}"""
+    module, cls = contract_class(spec_mod, cname)
+    if not hasattr(cls, "native_cases"):
+        return {"cases": 0, "in_contract": 0, "violations": [], "note": "no native_cases"}
+    n = m = 0
+    out = []
+    for case in cls.native_cases(seed, tier):
+        n += 1
+        if n > limit:
+            break
+        show = repr(case.get("kwargs"))[:400]
+        try:
+            bad = check_case(target, module, cls, case)
+        except Exception as e:   # noqa: BLE001
+            out.append(["harness", show, repr(e)])
+            continue
+        if bad is None:
+            continue
+        m += 1
+        for cl, d in bad:
+            if len(out) < 20:
+                out.append([cl, show, d[:400]])
+    return {"cases": n, "in_contract": m, "violations": out}
